@@ -34,23 +34,23 @@ structure Pipe where
   version   : Nat := 0                   -- push context versions handed out by `s.Push`
   seen      : Conn → List Fact := fun _ => []   -- facts of every `Event.pushRequest` received by c's stream loop
   accepted  : List View := []            -- every request `ConfigUpdate` put into the channel (history)
+  enqd      : Conn → List Fact := fun _ => []   -- facts of every request `StartPush` enqueued for c while the queue accepted (history)
+  dropped   : Conn → List Fact := fun _ => []   -- facts of push events of c given up by a closed-stream / server-stop exit (history)
 
 def chanCap : Nat := 10
 
+/-- Append the map object for a non-nil map field. -/
+def pushO {α : Type} (st : List (List α)) (o : Option (List α)) : List (List α) :=
+  match o with
+  | some l => st ++ [l]
+  | none => st
+
 /-- Allocate the request object `pushFn` works on: a fresh request with fresh maps reading `v`. -/
 def allocView (h : Heap) (v : View) : Heap :=
-  { cfgs := match v.configs with
-      | some l => h.cfgs ++ [l]
-      | none => h.cfgs
-    adrs := match v.addrs with
-      | some l => h.adrs ++ [l]
-      | none => h.adrs
-    wpss := match v.wps with
-      | some l => h.wpss ++ [l]
-      | none => h.wpss
-    rsns := match v.reason with
-      | some l => h.rsns ++ [l]
-      | none => h.rsns
+  { cfgs := pushO h.cfgs v.configs
+    adrs := pushO h.adrs v.addrs
+    wpss := pushO h.wpss v.wps
+    rsns := pushO h.rsns v.reason
     reqs := h.reqs ++ [{ configs := v.configs.map (fun _ => h.cfgs.length)
                          addrs := v.addrs.map (fun _ => h.adrs.length)
                          wps := v.wps.map (fun _ => h.wpss.length)
@@ -113,6 +113,7 @@ def stepP (p : Pipe) : PEv → Option Pipe
     match p.toStart with
     | v :: rest =>
       some { p with toStart := rest, version := p.version + 1
+                    enqd := fun c => if p.snd.q.down || !p.conns.contains c then p.enqd c else p.enqd c ++ factsV v
                     snd := { p.snd with q := enqueueAll { p.snd.q with heap := allocView p.snd.q.heap (prepPush (p.version + 1) v) }
                                                         p.snd.q.heap.reqs.length p.conns } }
     | [] => none
@@ -122,6 +123,8 @@ def stepP (p : Pipe) : PEv → Option Pipe
       | some s' =>
         match e with
         | .deliver c => some { p with snd := s', seen := fun c' => if c' = c then p.seen c ++ flightFacts p.snd c else p.seen c' }
+        | .closedExit c => some { p with snd := s', dropped := fun c' => if c' = c then p.dropped c ++ flightFacts p.snd c else p.dropped c' }
+        | .stopExit c => some { p with snd := s', dropped := fun c' => if c' = c then p.dropped c ++ flightFacts p.snd c else p.dropped c' }
         | _ => some { p with snd := s' }
       | none => none
   | .register c => some { p with conns := if p.conns.contains c then p.conns else p.conns ++ [c] }
